@@ -5,7 +5,7 @@ sys.path.insert(0, os.path.dirname(os.path.abspath(__file__)))
 rc = 0
 sys.path.insert(0, os.path.join(os.path.dirname(os.path.abspath(__file__)), 'translate'))
 import py2lean
-for g in ('options', 'faults', 'dispatch', 'decide'):
+for g in ('options', 'faults', 'dispatch', 'decide', 'decide_nl'):
     try:
         getattr(py2lean, 'gen_' + g)()
     except Exception as e:
